@@ -281,6 +281,8 @@ def main():
     use_model = os.environ.get("VERIF_NO_MODEL") != "1"
 
     # 1. proof obligations
+    if hasattr(prop, "pre_obligations"):
+        prop.pre_obligations(tier, seed)
     obl = leanside.obligations(pid, tier) if use_model else {"ok": True, "theorems": [], "note": "skipped (VERIF_NO_MODEL)"}
     # extra static obligations of the property (e.g. the regenerated API table of C19)
     # 2+3. correspondence and search
